@@ -22,7 +22,7 @@ func init() {
 	Register(&Check{Prop: "C08", Run: runC08, Replay: func(c *Ctx, cs *Case) { evalC08(c, cs) }})
 }
 
-var c08Classes = []int{gen.ClassPlain, gen.ClassExt, gen.ClassUnicode, gen.ClassQuoting, gen.ClassBullet}
+var c08Classes = []int{gen.ClassPlain, gen.ClassExt, gen.ClassUnicode, gen.ClassQuoting, gen.ClassBullet, gen.ClassCase}
 
 func c08Safe(f model.Forest) {
 	fsSafeForest(f)
